@@ -730,3 +730,16 @@ package writer
 //@   requires usi != nil
 //@   ensures [an-evicted-segment-has-no-micro-index-slots-and-is-marked-not-loaded] !usi.isCmiLoaded && len(usi.unrotatedBlockCmis) == 0
 //@ end
+
+// C01 (a stored value is read back byte for byte): feeding a column value to the
+// block's bloom filter at flush time only READS the value — the slice it is
+// given aliases the column's write buffer, whose bytes are about to go to disk;
+// lower-cased variants are built in the separate work buffer.
+//@ func addToBlockBloomBothCasesWithBuf @frame
+//@   props C01
+//@   requires disjoint(fullWord, workBuf)
+//@   modifies contents(workBuf), elemsof(uint64)
+//@   ensures [the-value-bytes-are-left-as-they-were] forall(k, 0, len(fullWord), fullWord[k] == old(fullWord[k]))
+//@   loop 1:
+//@     invariant samearray(copy, fullWord) && forall(k, 0, len(fullWord), fullWord[k] == old(fullWord[k]))
+//@ end
